@@ -375,6 +375,10 @@ def shards(tier):
                 out.append({"cls": "lod", "fmt": "csv", "suffix": suffix, "n": n, "tier": tier, "encoding": enc})
                 out.append({"cls": "lod", "fmt": "json", "suffix": suffix, "n": n, "tier": tier, "encoding": enc})
             out.append({"cls": "lod", "fmt": "pickle", "suffix": suffix, "n": n, "tier": tier})
+    # the two-row frames of every format once more under a local time zone that is not UTC (dates and datetimes are naive)
+    for sh in list(out):
+        if sh["cls"] == "df" and sh["suffix"] == "" and sh["n"] == 2 and sh.get("encoding", "utf-8") == "utf-8" and sh.get("sep", ",") == ",":
+            out.append(dict(sh, __env__={"TZ": "America/St_Johns"}))
     # keyword arguments the JSON writers hand to json.dumps, on data that the chosen encoding can hold only with them
     out.append({"cls": "jsonkw", "tier": tier})
     # forms of the path argument (each format once per form)
